@@ -344,6 +344,29 @@ CHECKS = {
 NOT_YET = "check not built yet in this round (work in progress; see DESIGN.md section 6 for the planned design)"
 
 
+# sentences appended to the level text of checks that were extended after the seeded-change waves
+EXTRA_TEXT = {
+    "C01": " Added: every np.clip bound position/spelling, out= forms of the merging functions, and 'namesake' operands - units spelled alike but of different dimension (a unit object kept across remove+add of its symbol; one symbol defined differently in two registries), cold and after a warm-up call, through every operation x form.",
+    "C02": " Added: numeric coefficients under roots and powers; user units defined by define_unit/add/modify(quantity) in registries with cgs, imperial, galactic and mks default systems (atom, prefixed, compound, conversion).",
+    "C03": " Added: every spelling of one target (name, alias, parenthesised, trivial power, empty string, Unit object) x 5 routes; argument-free base-conversion routes of registries with a non-default unit system vs the routes that name the system.",
+    "C04": " Added: .dot method and udot helper, trigonometry on the offset angle scales lat/lon, all ordered pairs of 15 compound / inverse / self-cancelling leaf units, and operands whose units are spelled alike but differ in size (stale unit object after modify; two registries).",
+    "C05": " Added: == / != decided for all ordered atom pairs, equal units with equal expression hash equally whatever algebraic route built them, as_coeff_unit keeps the zero point.",
+    "C06": " Added: large tied arrays for stable sorts, out= templates with axis-symmetric result shapes, ufunc templates on operands that carry one unit through two Unit objects (integer data, zero divisors), unyt's u* helpers.",
+    "C07": " Added: out= buffers handed over in another unit of the same dimension must come back denoting the same quantities.",
+    "C08": " Added: products through 14 array functions and through Unit objects with the offset-scale operand on either side.",
+    "C09": " Added: operands and target names living in a custom registry (re-defined Msun, code units).",
+    "C11": " Added: sibling-edit hops and savetxt/loadtxt of several columns read back in every order and selection.",
+    "C12": " Added: a second search from a populated registry, doubly prefixed probes, cancellation programs compared also through the printed unit, modify(sym, quantity in sym), kept Unit.copy() objects probed through their own registry, freshness of the memoised registry id after every edit.",
+    "C14": " Added: resolution independent of the order of earlier prefixed lookups in a fresh registry (all ordered prefix pairs x all prefixable symbols, comoving ...cm symbols) and table symbols surviving the registration of a user symbol S with prefix+S = table symbol.",
+    "C15": " Added: namespaces filled by add_symbols then add_constants, and by add_constants twice.",
+    "C16": " Added: in-place operators and out= on whole / first-element / first-two views stay attached to the parent; list coercion across two registries; constructor keyword variants.",
+    "C17": " Added: an out= buffer that is the second operand; spectral wavelength->wavenumber (a reciprocal) for every integer dtype; floor_divide and remainder of 8-byte operands in different units against the exact rational floor.",
+    "C18": " Added: operands with unsimplified unit expressions; Unit-object targets of another registry / exported units snapshotted with the identity of their registry.",
+    "C19": " Added: every decorator usage repeated as a later call of the same decorated function.",
+    "C20": " Added: printed forms of products with self-cancelling unit ratios.",
+}
+
+
 def main():
     checks = []
     for pid in ALL:
@@ -358,7 +381,7 @@ def main():
                 "evidence_file": f"/verif/evidence/{pid}.json",
                 "replay_cmd_template": "/venv/bin/python /verif/run.py --replay {path}",
                 "engine": "mc",
-                "level_claimed": {"category": "model_checking", "text": text, "design_ref": ref},
+                "level_claimed": {"category": "model_checking", "text": text + EXTRA_TEXT.get(pid, ""), "design_ref": ref},
                 "level_note": note,
                 "technique": tech,
             }
